@@ -156,19 +156,30 @@ def gen_cases(rng, tier):
             cases.append({"kind": "blocs", "violation": v, "props": {b: common.fstr(x) for b, x in props.items()},
                           "interval_keys": ikeys, "cohesion": {b: {b2: common.fstr(x) for b2, x in row.items()} for b, row in coh.items()}})
         else:
-            v = rng.choice(["valid", "overlap", "props_sum", "dup_candidates", "dup_ok"])
+            v = rng.choice(["valid", "overlap", "overlap_zero", "valid_zero", "props_sum", "dup_candidates", "dup_ok"])
             if v in ("dup_candidates", "dup_ok"):
                 cands = ["A", "B", "C"] + (["A"] if v == "dup_candidates" else [])
                 rng.shuffle(cands)
                 cases.append({"kind": "dupcands", "violation": v, "cands": cands})
             else:
-                ints = [["A", "B"], ["C", "D"]]
-                props = [Fraction(1, 2), Fraction(1, 2)]
+                ints = [["A", "B"], ["C", "D"]] if rng.random() < 0.5 else [["A", "B", "E"], ["C", "D"], ["F"]]
+                props = [Fraction(1, len(ints))] * len(ints)
+                sups = [[rng.choice([1.0, 2.0, 0.5]) for _ in cs] for cs in ints]
                 if v == "overlap":
                     ints[1][0] = "B"
+                if v == "overlap_zero":
+                    # the shared candidate has zero support in one of the two intervals (or in both)
+                    ints[1][0] = "B"
+                    if rng.random() < 0.5:
+                        sups[0][1] = 0.0
+                    if rng.random() < 0.5 or sups[0][1] != 0.0:
+                        sups[1][0] = 0.0
+                if v == "valid_zero":
+                    sups[0][0] = 0.0
                 if v == "props_sum":
                     props[1] += Fraction(1, 10 ** 6)
-                cases.append({"kind": "combine", "violation": v, "intervals": ints, "props": [common.fstr(x) for x in props]})
+                cases.append({"kind": "combine", "violation": "valid" if v == "valid_zero" else ("overlap" if v == "overlap_zero" else v),
+                              "family": v, "intervals": ints, "supports": sups, "props": [common.fstr(x) for x in props]})
     return cases
 
 
@@ -224,19 +235,21 @@ def run_case(case):
                [[bid[b], S([[bid[b2], Fraction(x)] for b2, x in row.items()])] for b, row in case["cohesion"].items()]]
         model.append({"op": 65, "arg": arg, "expect": out if isinstance(out, Err) else None, "what": "BallotGenerator.__init__ bloc checks"})
         bad = v not in ("valid", "valid_near_one")
-        if bad and out != Err("EValue"):
+        if bad and not common.is_err(out, "EValue"):
             oracle.append(f"{v}: expected ValueError, got {out if isinstance(out, Err) else 'a generator'}")
         if not bad and isinstance(out, Err):
             oracle.append(f"valid bloc parameters rejected: {out}")
         return {"model": model, "oracle": oracle, "tags": tags, "nontrivial": True}
     if kind == "combine":
         from votekit.pref_interval import PreferenceInterval, combine_preference_intervals
-        ints = [PreferenceInterval({c: 1.0 for c in cs}) for cs in case["intervals"]]
+        sups = case.get("supports") or [[1.0] * len(cs) for cs in case["intervals"]]
+        ints = [PreferenceInterval(dict(zip(cs, ss))) for cs, ss in zip(case["intervals"], sups)]
+        tags.append("family:" + case.get("family", v))
         out = call_impl(combine_preference_intervals, ints, [float(Fraction(x)) for x in case["props"]])
         ids = {c: i + 1 for i, c in enumerate(sorted({c for cs in case["intervals"] for c in cs}))}
         model.append({"op": 66, "arg": [[[ids[c] for c in cs] for cs in case["intervals"]], [Fraction(x) for x in case["props"]]],
                       "expect": out if isinstance(out, Err) else None, "what": "combine_preference_intervals checks"})
-        if v != "valid" and out != Err("EValue"):
+        if v != "valid" and not common.is_err(out, "EValue"):
             oracle.append(f"{v}: expected ValueError, got {out if isinstance(out, Err) else 'an interval'}")
         if v == "valid" and isinstance(out, Err):
             oracle.append(f"valid intervals rejected: {out}")
